@@ -48,7 +48,8 @@ def gen_specs(run, group):
     for ci, (b, m, T) in enumerate(confs):
         k = (b * m).bit_length() - 1
         mem = gen.mk_member(rng, b, m, cap=m * rng.choice([1, 2]), T=T, seed=(m == 1 and ci % 2 == 0))
-        mem2 = gen.mk_member(rng, b, max(1, m // 2) if m > 1 else 2, cap=4, T=T)          # a different aggregation factor, same bits/T
+        m2 = max(1, m // 2) if m > 1 else 2
+        mem2 = gen.mk_member(rng, b, m2, cap=max(4, m2), T=T)                              # a different aggregation factor, same bits/T
         mem3 = gen.mk_member(rng, (b * 2 if b < 64 else 32), 1, cap=1, T=T)               # different bits
         mem4 = gen.mk_member(rng, b, m, cap=m, T=(T % 6) + 1)                              # different T
         hd = hostile_derivations(rng, T, k, quick)
@@ -137,6 +138,43 @@ def run(run: Run):
                     run.violation(f"ill-formed batch / mismatched proof accepted ({name}, mode {md})", rp)
                 elif where != "shape" and md != "RecoverOnly" and cls == "ok":
                     run.violation(f"hostile proof '{name}' accepted ({where}, mode {md})", rp)
+    # very large aggregation factors: more commitments in ONE statement than the internal batch size (256); release builds only (cost)
+    big = []
+    for (b, m, T) in ([(1, 512, 1)] if run.tier == "quick" else [(1, 256, 1), (1, 512, 1), (1, 1024, 2)]):
+        rngb = random.Random(f"c16big:{run.seed}:{m}")
+        mem = gen.mk_member(rngb, b, m, cap=m, T=T)
+        small = gen.mk_member(rngb, b, 2, cap=2, T=T)
+        k = (b * m).bit_length() - 1
+        hd = [("rounds+1", [{"op": "dup_round", "idx": 0}]), ("a1=undecodable", [{"op": "point_set", "field": "a1", "idx": 0, "to": {"undecodable": 5}}]),
+              ("r1=0", [{"op": "scalar_set", "field": "r1", "idx": 0, "hex": gen.hx(0)}]), ("rounds-1", [{"op": "drop_round", "idx": 0}])]
+        verifies, tags = [], []
+        for md in ("VerifyOnly", "RecoverAndVerify", "RecoverOnly"):
+            verifies.append({"mode": md, "vmembers": [gen.vmember(mem, 0)], "log": False}); tags.append(("honest", "alone", md, True))
+            verifies.append({"mode": md, "vmembers": [gen.vmember(small, 1), gen.vmember(mem, 0)], "log": False}); tags.append(("honest", "second", md, True))
+        for di, (name, _) in enumerate(hd):
+            verifies.append({"mode": "VerifyOnly", "vmembers": [gen.vmember(mem, 2 + di)], "log": False}); tags.append((name, "alone", "VerifyOnly", False))
+            verifies.append({"mode": "RecoverAndVerify", "vmembers": [gen.vmember(small, 1), gen.vmember(mem, 2 + di)], "log": False}); tags.append((name, "second", "RecoverAndVerify", False))
+        big.append({"id": f"c16-big-{m}", "members": [mem, small], "derived": [{"from": 0, "ops": ops} for (_, ops) in hd], "verifies": verifies, "_tags": tags,
+                    "_conf": [b, m, T], "with_gens": False, "log_merlin": False, "log_msm": False})
+    for group in ("fm", "ristretto"):
+        obs = run_harness(["session", group], [dict(sessions.strip(s), group=group) for s in big], profile="release", jobs=len(big))
+        for s, o in zip(big, obs):
+            b, m, T = s["_conf"]
+            if o["members"][0].get("prove") != "ok":
+                run.violation(f"prover failed for aggregation factor {m} ({group}): {o['members'][0].get('prove')}", {"kind": "session", "spec": dict(sessions.strip(s), group=group), "profile": "release"})
+                continue
+            for vi, ((name, where, md, want_ok), vo) in enumerate(zip(s["_tags"], o["verifies"])):
+                res = vo["result"]
+                cls = res.split(":")[0]
+                run.count(["c16big", group, m, name, where, md, cls], {"group": group, "bits": b, "m": m, "T": T, "case": name, "where": where, "mode": md, "result": res[:60]})
+                run.bump(f"large aggregation/{group}")
+                rp = {"kind": "session", "spec": dict(sessions.strip(s), group=group), "verify": vi, "profile": "release", "hostile": name, "where": where}
+                if cls == "panic":
+                    run.violation(f"verification panicked (release, {group}; aggregation factor {m}, {name} {where}, mode {md}): {res[:160]}", rp)
+                elif want_ok and cls != "ok":
+                    run.violation(f"honest proof with aggregation factor {m} refused ({group}, {where}, mode {md}): {res[:100]}", rp)
+                elif not want_ok and cls == "ok":
+                    run.violation(f"hostile proof '{name}' accepted (aggregation factor {m}, {where}, mode {md})", rp)
     # the decoder on arbitrary strings, debug and release
     strs = random_strings(run)
     for profile in ("debug", "release"):
@@ -159,7 +197,7 @@ def run(run: Run):
         "proof",
         "hostile proofs (round counts 1..70 and hundreds/thousands, every extension tag and d1 length, identity / undecodable / unrelated points at each kind of position, boundary and "
         "non-canonical scalars) alone, at position >= 1 and in the middle of mixed batches, against matching and mismatching statements, ill-formed batch shapes (0-3 mismatched "
-        "lengths, mixed bits / T / aggregation), in the three modes, in debug (overflow-checked) and release builds over Ristretto and the free-module group; arbitrary byte strings "
+        "lengths, mixed bits / T / aggregation, aggregation factors of 512 (thorough: 256..1024) commitments per statement), in the three modes, in debug (overflow-checked) and release builds over Ristretto and the free-module group; arbitrary byte strings "
         "through the decoder; any panic, abort, acceptance of a hostile proof or call above 20 s is a violation; the model predicts Ok/Err; distinct by "
         "(profile, group, bits, m, T, hostile kind, placement, mode, outcome)",
         ["time proportional to input size is checked as an absolute ceiling on inputs of a few KiB"],
